@@ -565,11 +565,50 @@ fn p_nfb(r: &mut Rng, n: usize) -> Vec<Case> {
         r.shuffle(&mut s);
         dedup(s)
     } else {
-        let count = r.range(300, 3000);
+        let count = r.range(300, 2200);
         let hi = if a.len() <= 5 { 8 } else { 4 };
         dedup((0..count).map(|_| word(r, &a, 1, hi)).collect())
     };
-    let hs = haystacks(r, &set, &a, utf8);
+    let mut set = set;
+    if !utf8 && r.pct(40) {
+        // a chain of wide nodes: every node on the chain needs (almost) a block of its own, so
+        // blocks are opened by the `find_base` fallback one after the other
+        let depth = r.range(3, 14);
+        let width = r.range(129, 200);
+        let mut path: Word = vec![];
+        let mut s: Vec<Word> = vec![];
+        for _ in 0..depth {
+            let lo = r.range(1, 256 - width) as Sym;
+            for c in lo..lo + width as Sym {
+                s.push([&path[..], &[c]].concat());
+            }
+            path.push(lo + r.below(width) as Sym);
+        }
+        set = dedup(s);
+    }
+    if !utf8 && r.pct(70) {
+        // one-byte patterns 0x00 / 0x01 make a wrong transition on the bytes vacant slots default
+        // to observable
+        for z in [0, 1] {
+            if r.pct(70) && !set.contains(&vec![z]) {
+                set.push(vec![z]);
+            }
+        }
+    }
+    let mut hs = haystacks(r, &set, &a, utf8);
+    if !utf8 {
+        // path(u) ++ [0|1] ++ tail for nodes u of the trie
+        for _ in 0..14 {
+            let p = set[r.below(set.len())].clone();
+            let k = r.range(1, p.len());
+            let mut h: Word = p[..k].to_vec();
+            h.push(r.below(2) as Sym);
+            if r.pct(40) {
+                h.push(r.below(2) as Sym);
+            }
+            hs.push(h);
+        }
+    }
     let kind = r.below(3) as u8;
     let vt = pick_vt(r, 70);
     let entry = entry_for(r, vt, set.len(), 50);
